@@ -167,6 +167,33 @@ impl<A: Cx> Drv<A> {
         json!({"base": "reg", "r": r, "path": path})
     }
 
+    /// A source that is NOT a window of an owned register: a compiled static literal (codecs that have
+    /// literal macros) or the slice a machine-word k-mer dereferences to, re-sliced to a random depth.
+    /// Registers used: literal slot 23, k-mer register 15.
+    pub fn foreign_src(&mut self) -> (Value, usize) {
+        let lits = A::lits();
+        let (base, r, mut n) = if !lits.is_empty() && self.rng.chance(1, 2) {
+            let id = self.rng.below(lits.len());
+            let t = lits[id].0;
+            self.emit(json!({"op": "lit", "dst": NREG + 7, "c": A::NAME, "id": id, "bytes": t.as_bytes()}));
+            ("reg", NREG + 7, t.len())
+        } else {
+            let kmax = 64 / A::BITS as usize;
+            let k = *self.rng.pick(&[1, 2, 3, kmax / 2, kmax - 1, kmax]);
+            let k = if k >= 1 && crate::kd::KS.contains(&k) { k } else { 1 };
+            let t = self.rand_text(k);
+            self.emit(json!({"op": "kparse", "kd": 15, "c": A::NAME, "k": k, "st": "usize", "bytes": t}));
+            ("kmer", 15, k)
+        };
+        let mut path = Vec::new();
+        for _ in 0..self.rng.below(3) {
+            let st = self.rand_step(n);
+            n = step_len(&st, n);
+            path.push(st);
+        }
+        (json!({"base": base, "r": r, "path": path}), n)
+    }
+
     /// Build register `dst` so that it holds exactly `content`, through a randomly chosen
     /// PRODUCTION (several public calls): the same content reached by parsing, collecting, truncating,
     /// draining, reversing twice, copying out of an offset window, splicing, serde, a raw image, ...
